@@ -39,7 +39,7 @@ func (s *Stream) Span(sp ptrace.Span) {
 	sp.TraceState().FromRaw(s.StrOpt("span.trace_state"))
 	sp.SetName(s.StrOpt("span.name"))
 	if s.On("span.kind") {
-		sp.SetKind(ptrace.SpanKind(rapid.IntRange(0, 5).Draw(s.T, "kind")))
+		sp.SetKind(ptrace.SpanKind(rapid.SampledFrom([]int32{0, 1, 2, 3, 4, 5, 6, 100, -1, 2147483647}).Draw(s.T, "kind")))
 	}
 	sp.SetStartTimestamp(s.TSOpt("span.start"))
 	if s.On("span.end") {
@@ -50,7 +50,7 @@ func (s *Stream) Span(sp ptrace.Span) {
 	sp.SetDroppedEventsCount(s.U32Opt("span.dec"))
 	sp.SetDroppedLinksCount(s.U32Opt("span.dlc"))
 	if s.On("span.status") {
-		sp.Status().SetCode(ptrace.StatusCode(rapid.IntRange(0, 2).Draw(s.T, "stc")))
+		sp.Status().SetCode(ptrace.StatusCode(rapid.SampledFrom([]int32{0, 1, 2, 3, -1, 2147483647}).Draw(s.T, "stc")))
 		sp.Status().SetMessage(s.StrOpt("span.status.msg"))
 	}
 	s.Attrs(sp.Attributes(), "span.attrs")
